@@ -11,6 +11,8 @@ S = "crates/core/src/repofile/snapshotfile.rs"
 def pred(name, spec):
     return Unit(name=name, file=F, anchor="fn %s(sn1: &SnapshotFile, sn2: &SnapshotFile) -> bool" % name, ret_name="r",
                 functions=["commands::forget::%s" % name],
+                # calendar fact made available to every predicate (so that an implementation by month + day of month is accepted as well)
+                hints=[("before", "equal_", "    proof { axiom_doy_is_month_and_day(sn1.time, sn2.time); }")] if name in ("equal_day", "equal_hour", "equal_minute") else [],
                 contract="\n    ensures\n        /*@%s*/ r == %s(sn1.time, sn2.time),\n" % (name, spec))
 
 
